@@ -174,6 +174,42 @@ pub fn drive(args: &[String]) -> i32 {
                 }
             }
         }
+        // the adversarial word right after a stratified random word: a branch that is selected by the previous draw with
+        // probability >= 3% (a region of a multi-region proposal) is reached with the extreme words whatever the seed
+        if entry_timeouts < 3 && e.variant != "beyond-E" {
+            let mut srnd = crate::rng::Sm(seed ^ 0x57a7 ^ (ei as u64) << 20);
+            for pos in 1..positions.min(6) {
+            if entry_timeouts >= 1 { break; }          // one established hang per entry is enough (each costs seconds and a spinning thread)
+            let mut jobs: Vec<Job> = vec![]; let mut meta: Vec<(usize, u64, u64)> = vec![];
+            for &w in &[0u64, u64::MAX] { for k in 0..32u64 {
+                let mut prefix: Vec<u64> = (0..pos - 1).map(|_| srnd.next()).collect();
+                prefix.push((k << 59) | (srnd.next() >> 5)); prefix.push(w);
+                jobs.push(Job { entry: ei, prefix, seed: srnd.next(), at: 0, word: 0, mode: 1 }); meta.push((pos, w, k));
+            } }
+            let dones = run_batch(jobs, limit_ms, &mut jtx, &mut drx);
+            for ((pos, w, k), d) in meta.into_iter().zip(dones.into_iter()) {
+                ncalls += 1;
+                let mut ev = base.clone();
+                ev["op"] = json!("call"); ev["pos"] = json!(pos); ev["word"] = json!(format!("{:#018x}", w)); ev["wc"] = json!(word_class(w)); ev["strat"] = json!(k);
+                ev["words"] = json!(d.words.min(2_000_000_000)); ev["us"] = json!(d.us.min(2_000_000_000)); ev["seed"] = json!(0);
+                match d.out {
+                    Ok(o) => {
+                        let comps: Vec<(Vec<i64>, &str)> = o.bits.iter().map(|&b| limbs_of(o.kind, b)).collect();
+                        ev["res"] = json!("Ok");
+                        ev["out"] = json!(comps.iter().map(|c| c.0.clone()).collect::<Vec<_>>());
+                        ev["ocls"] = json!(comps.iter().map(|c| c.1).collect::<Vec<_>>());
+                        ev["integral"] = json!(o.bits.iter().all(|&b| integral(o.kind, b)));
+                        ev["wpos"] = json!(if e.family.starts_with("Weighted") { weight_positive(e, o.bits[0]) } else { true });
+                        ev["show"] = json!(o.bits.iter().map(|&b| match o.kind { "f32" => format!("{:e}", f32::from_bits(b as u32)), "f64" => format!("{:e}", f64::from_bits(b)), _ => format!("{}", b) }).collect::<Vec<_>>());
+                    }
+                    Err(p) => { if p == "Timeout" { ntimeouts += 1; entry_timeouts += 1; } else { panicked.insert(ei); }
+                        ev["res"] = json!(if p == "Timeout" { p.clone() } else { format!("Panic: {}", p) });
+                        ev["out"] = json!([]); ev["ocls"] = json!([]); ev["integral"] = json!(true); ev["wpos"] = json!(true); ev["show"] = json!([]); }
+                }
+                writeln!(f, "{}", ev).unwrap(); nev += 1;
+            }
+            }
+        }
         // random-stream budget block
         let mut sum_words = 0u64; let mut max_words = 0u64; let mut max_us = 0u64; let mut bad = 0u64; let mut outlen = 1usize;
         let (mut bmn, mut bmx): (Option<i128>, Option<i128>) = (None, None);
